@@ -1,2 +1,43 @@
-From PJ Require Import Model.Dispatch.
-Lemma placeholder : True. Proof. exact I. Qed.
+(* C01 - the server answers every request text with nothing or a well-formed JSON-RPC 2.0 response document
+   together with the matching error codes, and never raises.  Statements only; proofs in Lemmas/DispatchL.v.
+   [load_result] is what the configured json loader did with the text (an oracle, supplied per case by the
+   harness); the loader contract is "returns a value or raises a ValueError (JSONDecodeError included)". *)
+From Coq Require Import ZArith List String Ascii Bool.
+From PJ Require Import Base.Json Base.Res Model.Msg Model.Bind Model.Dispatch Lemmas.DispatchL.
+Import ListNotations.
+Open Scope string_scope.
+
+(* never raises: for every configuration (registry, error handlers, batch limit, any middlewares that keep the
+   id discipline), every loader verdict inside the contract - hence every request text - and every context *)
+Theorem C01_total : forall cfg l ctx,
+  loader_in_contract l -> mws_id_ok cfg -> exists o lg, dispatch cfg l ctx = (Ok o, lg).
+Proof. exact dispatch_total. Qed.
+
+(* whatever is returned is a response document (one object or a NON-EMPTY array of objects, each with
+   jsonrpc "2.0", an id that is a string, an integer or null, exactly one of result / error, error = integer
+   code + string message + optional data) and the codes returned alongside are those of the document *)
+Theorem C01_wf : forall cfg l ctx doc codes lg,
+  dispatch cfg l ctx = (Ok (Some (doc, codes)), lg) ->
+  wf_response_doc doc = true /\ codes = codes_of_doc doc.
+Proof. exact dispatch_wf. Qed.
+
+(* the middleware proviso is met by the empty stack and by any stack of id-preserving middlewares *)
+Theorem C01_no_middlewares : forall cfg, c_mws cfg = [] -> mws_id_ok cfg.
+Proof. intros cfg H. unfold mws_id_ok. rewrite H. constructor. Qed.
+
+(* non-vacuity / witnesses *)
+Example C01_ex_notifications_only :
+  let cfg := {| c_registry := [("m", fun _ _ => MRan [] (ORet (JInt 1)))]; c_mws := []; c_ehs := []; c_max_batch := None |} in
+  fst (dispatch cfg (LOk (JArr [JObj [("jsonrpc", JStr "2.0"); ("method", JStr "m")]])) JNull) = Ok None.
+Proof. vm_compute. reflexivity. Qed.
+Example C01_ex_huge_literal :
+  let cfg := {| c_registry := []; c_mws := []; c_ehs := []; c_max_batch := None |} in
+  exists doc, fst (dispatch cfg LValueError JNull) = Ok (Some (doc, [(-32700)%Z])) /\ wf_response_doc doc = true.
+Proof. eexists. vm_compute. split; reflexivity. Qed.
+(* the proviso is necessary: a middleware answering every element with one fixed id makes dispatch raise *)
+Example C01_ex_proviso_needed :
+  let mw := {| mw_pre := fun _ _ => inr (Some (RResult (Some (IInt 7)) JNull)); mw_post := fun _ _ x => x |} in
+  let cfg := {| c_registry := []; c_mws := [mw]; c_ehs := []; c_max_batch := None |} in
+  let call i := JObj [("jsonrpc", JStr "2.0"); ("method", JStr "m"); ("id", JInt i)] in
+  fst (dispatch cfg (LOk (JArr [call 1%Z; call 2%Z])) JNull) = Raise XIdentity.
+Proof. vm_compute. reflexivity. Qed.
